@@ -1,6 +1,7 @@
 package props
 
 import (
+	"bytes"
 	"context"
 	"fmt"
 	"google.golang.org/grpc"
@@ -52,6 +53,7 @@ func c09(tier string) []*explore.Scenario {
 	out = append(out, withHistory(historyKinds(tier), c09One("1u1s", 1, false, 64, 1), c09One("2u", 1, true, 64, 1), c09One("1s", 2, false, 0, 1), c09One("1s", 0, false, 64, 1), c09One("1u1s", 0, true, 0, 1), c09Many(20, 4, false, 0))...)
 	out = append(out, withConfig(configKinds(tier), c09One("1u1s", 1, false, 64, 1), c09One("2u", 1, true, 64, 1), c09One("1s", 2, false, 0, 1), c09One("1s", 0, false, 64, 1), c09One("1u1s", 0, true, 0, 1), c09Many(20, 4, false, 0))...)
 	out = append(out, opInWriteAll("C09", 0)...)
+	out = append(out, c09AfterFailedWrite(false, 2), c09AfterFailedWrite(true, 1))
 	// finer granularity (a scheduling point after every Unlock as well) on the small core scenarios
 	out = append(out, fineGrained(c09One("2u", 1, false, 64, 1), c09Many(3, 2, false, 1))...)
 	return out
@@ -252,6 +254,70 @@ func c09Many(nu, ns int, writeFails bool, bound int) *explore.Scenario {
 			close(gate)
 			vsched.Quiesce()
 			finishDirect(d, w, false) // (ids on the wire stay pairwise distinct whatever the failure does to calls being started)
+		},
+	}
+}
+
+// c09AfterFailedWrite: the request write of an older call (a) fails while a newer call (b) is in flight;
+// a third call (c) then runs to completion; then the read side fails with b still waiting. b (and a
+// call started afterwards) must fail - whatever the failed write did to the connection's bookkeeping.
+func c09AfterFailedWrite(writeFails bool, bound int) *explore.Scenario {
+	fam := "C09/after-failed-write"
+	return &explore.Scenario{
+		Name: fmt.Sprintf("C09/after-failed-write/writefails=%v/d=%d", writeFails, bound), Family: fam, Prop: "C09", Bound: bound,
+		Run: func() {
+			w := env.NewWorld()
+			d := env.NewDirect(w, env.DirectOpts{Pipe: env.PipeOpts{Cap: 64}})
+			d.Pipe.A.WriteFailsWithRead = writeFails
+			vsched.Settle()
+			gateA, release := make(chan struct{}), make(chan struct{})
+			d.Pipe.A.OnWriteCall = func(k int, rpc *env.Rpc) {
+				if b := rpc.GetBody(); b != nil && bytes.Contains(b.GetData(), []byte("a|x")) {
+					<-gateA
+					d.Pipe.A.FailNextWrites = 1
+				}
+			}
+			vsched.Explore(true)
+			a, b, c, late := w.Rec("a", "Unary"), w.Rec("b", "Unary"), w.Rec("c", "Unary"), w.Rec("late", "Unary")
+			w.Unaries["b"] = func(r *env.Rec, ctx context.Context, in string) (string, error) {
+				select {
+				case <-release:
+				case <-ctx.Done():
+				}
+				return "R:" + in, nil
+			}
+			vsched.GoNamed("caller-a", func() { w.CallUnary(d.CC, context.Background(), a, "x") })
+			vsched.Quiesce()
+			vsched.GoNamed("caller-b", func() { w.CallUnary(d.CC, context.Background(), b, "x") })
+			vsched.Quiesce()
+			close(gateA)
+			vsched.Quiesce()
+			vsched.GoNamed("caller-c", func() { w.CallUnary(d.CC, context.Background(), c, "y") })
+			vsched.Quiesce()
+			if !a.CDone || a.CErr == nil {
+				vsched.Fail(fam+"|harness", "the call whose request write failed: done=%v err=%v", a.CDone, a.CErr)
+			}
+			if c.CDone && c.CErr == nil {
+				checkUnary(c, "y", fam)
+			}
+			d.Pipe.A.FailReads()
+			vsched.Quiesce()
+			vsched.GoNamed("caller-late", func() { w.CallUnary(d.CC, context.Background(), late, "z") })
+			vsched.Quiesce()
+			for _, r := range []*env.Rec{b, c, late} {
+				if !r.CDone {
+					vsched.Fail(fam+"|hang", "call %s is blocked forever after the transport's read side failed (an older call's request write had failed before; write side fails=%v): %s", r.Tag, writeFails, r.Summary())
+				}
+			}
+			if b.CDone && b.CErr == nil {
+				vsched.Fail(fam+"|fabricated", "call b reports success (reply %q) although its handler never answered", b.CReply)
+			}
+			if late.CDone && late.CErr == nil {
+				vsched.Fail(fam+"|late-call-succeeded", "a call started after the read failure did not fail")
+			}
+			close(release)
+			vsched.Quiesce()
+			finishDirect(d, w, false)
 		},
 	}
 }
